@@ -584,10 +584,12 @@ class ExtendedIndexedOperand(Operand):
                 if additional.is_negative():
                     if additional.is_8_bit():
                         raw_post_byte |= 0x98
+                        size += 1
                         additional = 0x100 - additional.int
                         additional = NumericValue(additional)
                     else:
                         raw_post_byte |= 0x99
+                        size += 2
                         additional = 0x10000 - additional.int
                         additional = NumericValue(additional)
                 elif additional.is_8_bit():
@@ -714,10 +716,12 @@ class IndexedOperand(Operand):
                         additional = NoneValue()
                     elif additional.is_8_bit():
                         raw_post_byte |= 0x88
+                        size += 1
                         additional = 0x100 - additional.int
                         additional = NumericValue(additional)
                     else:
                         raw_post_byte |= 0x89
+                        size += 2
                         additional = 0x10000 - additional.int
                         additional = NumericValue(additional)
                 elif additional.is_4_bit():
